@@ -11,7 +11,7 @@ namespace bkr {
 struct WireEvt {
     int seq = 0; int conn = -1; bool c2b = true; int64_t t = 0;
     ref::Packet pkt; std::string raw; bool malformed = false; std::string why;
-    bool raw_hostile = false;
+    bool raw_hostile = false; bool incomplete = false;   // incomplete: the bytes are only a prefix of a packet (the reference wants more)
     uint64_t b2c_end = 0;      // broker->client events: cumulative number of bytes emitted on this connection up to the end of this packet
 };
 
